@@ -34,6 +34,17 @@ EVIDENCE = os.path.join(VERIF, 'evidence')
 REPLAY = os.path.join(EVIDENCE, 'replay')
 NCPU = min(16, os.cpu_count() or 4)
 
+
+def jobs() -> int:
+    """Parallel coqc processes: all cores on an idle machine, fewer when it is already loaded."""
+    if os.environ.get('VERIF_JOBS'):
+        return max(1, int(os.environ['VERIF_JOBS']))
+    try:
+        load = os.getloadavg()[0]
+    except OSError:
+        load = 0.0
+    return max(3, min(NCPU, int(NCPU - load)))
+
 FIXED_TRUSTED_BASE = [
     'Coq 8.16.1 kernel (coqc), including its vm_compute evaluator (used for the correspondence comparison and for finite sweeps); no native_compute',
     'hand-written Gallina model of the anchored Python code (tied to /repo only through the correspondence run of this check)',
@@ -271,7 +282,7 @@ class Ctx:
             txt = m.group(1)
             return [base + int(x) for x in re.findall(r'\d+', txt)] if txt != 'nil' else []
 
-        with concurrent.futures.ThreadPoolExecutor(max_workers=NCPU) as ex:
+        with concurrent.futures.ThreadPoolExecutor(max_workers=jobs()) as ex:
             for res in ex.map(one, jobs):
                 bad.extend(res)
         self.coq_calls += len(jobs)
